@@ -86,6 +86,18 @@ def death_violation(ck, mode, case, info):
                  "clause": "the engine process died or hung while running this case (crash / deadlock)"})
 
 
+def hang_violation(ck, mode, case, o):
+    """the stress child saw no op complete for 3 s: a deadlock inside the implementation; `hang` = the op every
+    unfinished goroutine is stuck in"""
+    if o.get("hang") is None:
+        return False
+    stuck = o.get("hang") or []
+    kinds = sorted(set(str((h.get("op") or {}).get("op")) for h in stuck))
+    ck.violation("hang:%s:%s" % (mode, "+".join(kinds[:5])), {"mode": mode, "case": case, "impl_out": {"stuck": stuck[:16], "ops_completed": o.get("ops_completed")},
+                 "clause": "every registry call returns: no op completed for 3 s while these calls were in flight (deadlock)"})
+    return True
+
+
 def gen_threads(rng, nthreads, nops, scalars, bias=None):
     nextfile, used = [1], []
     ths = []
@@ -249,6 +261,39 @@ def main(ck):
             ck.broken.append("correspondence:C10.seq")
         ck.violation("seq:clauses=%s" % "".join(map(str, cls)), {"mode": "seq", "case": seqs[j], "impl_out": outs[j], "clause": [cl[x] for x in cls], "ops": kinds})
 
+    # the class-path manager (parser/class_path_manager.go, shared by every parser clone and every VM): its guarded state
+    # is the TREE hanging off `root` (walker option deep=root: accesses through locals derived from m.root count);
+    # entries = the exported methods (helpers rely on the caller's lock and are inlined).  FindClassFile inserts the
+    # sub-directory nodes it discovers: it is a WRITER (seeded change C10-5 downgraded it to RLock).
+    rc, ctable = vcheck.sh([binary, "walk", vcheck.REPO, "parser", "DefaultClassPathManager", "class_path_manager.go", "deep=root", "entries=exported"]) if binary else (1, "")
+    if rc != 0 or "Definition vm_fields" not in ctable:
+        ck.log("walker failed on DefaultClassPathManager:\n" + ctable[-800:])
+        ck.broken.append("translator:lock-walker(DefaultClassPathManager)")
+    else:
+        cbody = ctable[ctable.index("Definition vm_fields"):].replace("vm_fields", "cpm_fields").replace("vm_map_fields", "cpm_map_fields").replace("vm_table", "cpm_table")
+        cobl = os.path.join(ck.bdir, "ClassPathLockObligations.v")
+        open(cobl, "w").write("(* GENERATED — lock table of parser/class_path_manager.go (type DefaultClassPathManager) *)\nFrom Coq Require Import List String.\nImport ListNotations.\nFrom V.Common Require Import LockDiscipline.\nOpen Scope string_scope.\n\n" + cbody +
+                              "\nSet Printing Width 100000.\nDefinition ill := Eval vm_compute in ill_locked cpm_table.\nPrint ill.\n"
+                              "Lemma cpm_table_well_locked : well_locked cpm_table = true.\nProof. vm_compute. reflexivity. Qed.\n"
+                              "Theorem cpm_race_free : forall progs sched, Forall (from_table cpm_table) progs -> ~ race (LockDiscipline.run (init_state progs) sched).\n"
+                              "Proof. exact (well_locked_race_free_l cpm_table cpm_table_well_locked). Qed.\n"
+                              "(* not vacuous: the lookup really is recorded as a writer of the tree *)\n"
+                              "Lemma cpm_lookup_writes : existsb (fun e => andb (String.eqb (fst e) \"FindClassFile\") (existsb (fun a => match a with AWrite _ => true | _ => false end) (snd e))) cpm_table = true.\n"
+                              "Proof. vm_compute. reflexivity. Qed.\n")
+        rc, o = ck.coqc(cobl, cwd=ck.bdir, timeout=300)
+        ck.obligations += 3
+        ck.checker_cmds.append("coqc .build/C10/ClassPathLockObligations.v (regenerated from parser/class_path_manager.go by `c10 walk ... deep=root entries=exported`)")
+        m = re.search(r"ill\s*=\s*\[(.*?)\]\s*:\s*list string", o, re.S)
+        cill = re.findall(r'"([^"]+)"', m.group(1)) if m else []
+        ck.cov["classpath_ill_locked_methods"] = cill
+        if rc == 0:
+            ck.discharged += 3
+            ck.theorems += ["cpm_table_well_locked", "cpm_race_free", "cpm_lookup_writes"]
+        else:
+            ck.log("regenerated class-path manager lock obligations FAILED; ill-locked: %s\n%s" % (cill, o[-800:]))
+            ck.broken.append("obligation:well_locked cpm_table (ill-locked: %s)" % ",".join(cill))
+            ck.coq_log_tail = o[-1500:]
+
     # ---------------------------------------------------------------- (iii) race stress + concurrent histories
     bias = sorted(set(METHOD_OPS[m] for m in ill if m in METHOD_OPS)) or None
     stress = []
@@ -267,6 +312,8 @@ def main(ck):
     for c, o in zip(stress, souts):
         if "worker_death" in o:
             death_violation(ck, "stress", dict(c, threads=[t[:40] for t in c["threads"]]), o["worker_death"])
+            continue
+        if hang_violation(ck, "stress", c if sum(map(len, c["threads"])) < 400 else dict(c, threads=[t[:40] for t in c["threads"]]), o):
             continue
         if o.get("exit", 0) != 0 or o.get("race") or o.get("fatal"):
             nrace += 1
@@ -298,6 +345,16 @@ def main(ck):
             # one more goroutine keeps registering namespaces on the shared class-path manager (AddNamespace vs FindClassFile)
             ths.append([{"op": "addns", "name": "Extra%d" % k} for k in range(4)])
             auto_cfgs.append({"autoload": AUTO, "threads": ths, "gomaxprocs": g, "repeat": 25, "keepall": True})
+        # many DISTINCT sub-namespaces nobody registered or visited: App\S<k>\Item is found by discovering directory S<k>
+        # (the class-path manager inserts the node while looking up): all goroutines look up different ones at once
+        for (n, g) in ([(8, 4), (16, 16)] if ck.tier == "quick" else [(n, g) for n in (4, 8, 16, 32) for g in (2, 4, 16)]):
+            subs = [{"name": "S%d/Item" % k, "kind": "c"} for k in range(2 * n)]
+            ths = []
+            for t in range(n):
+                mine = [{"op": rng.choice(["goc", "pkg"]), "name": "App\\S%d\\Item" % k} for k in (2 * t, 2 * t + 1, (2 * t + 2) % (2 * n))]
+                ths.append(mine)
+            auto_cfgs.append({"autoload": subs, "threads": ths, "gomaxprocs": g, "repeat": 12, "keepall": True,
+                              "want": dict(("App\\S%d\\Item" % k, 1000 + k) for k in range(2 * n))})
     nauto, nauto_bad = 0, 0
     for binx, what in ((binary, "results"), (racebin, "race")):
         if not auto_cfgs:
@@ -307,11 +364,13 @@ def main(ck):
             if "worker_death" in o:
                 death_violation(ck, "autoload", c, o["worker_death"])
                 continue
+            if hang_violation(ck, "autoload", c, o):
+                continue
             if what == "race":
                 if o.get("race") or o.get("fatal") or o.get("exit", 0) != 0:
                     acc = [l for l in o.get("report", []) if l.startswith("ACCESS ")]
                     vmfn = sorted(set(re.findall(r"runtime\.\(\*VM\)\.(\w+)", " ".join(acc))))
-                    pk = sorted(set(re.findall(r"origami/(\w+)\.", " ".join(acc))))
+                    pk = sorted(set(re.findall(r"origami/([\w/]+\.(?:\(\*?\w+\)\.)?\w+)", " ".join(acc))))
                     if o.get("fatal"):
                         key = "race:%s:%s" % (str(o.get("fatal")).replace(" ", "-"), "+".join(vmfn[:4]))
                     elif vmfn:
@@ -327,7 +386,7 @@ def main(ck):
                         if op["op"] == "addns":
                             continue
                         nauto += 1
-                        if r["r"] != 0 or r["d"] != want[op["name"]]:
+                        if r["r"] != 0 or r["d"] != (c.get("want") or want)[op["name"]]:
                             nauto_bad += 1
                             ck.violation(("autoload:wrong-definition:" if r["r"] == 0 and r["d"] >= 0 else "autoload-race:not-found:") + op["op"],
                                          {"mode": "autoload", "case": c, "impl_out": {"op": op, "result": r},
@@ -381,6 +440,8 @@ def main(ck):
         for c, o in zip(tcfgs, touts):
             if "worker_death" in o:
                 death_violation(ck, "temps", c, o["worker_death"])
+                continue
+            if hang_violation(ck, "temps", c, o):
                 continue
             if o.get("race") or o.get("fatal") or o.get("exit", 0) != 0:
                 fns = sorted(set(re.findall(r"origami/([\w/]+)\.", " ".join(l for l in o.get("report", []) if l.startswith("ACCESS ")))))
@@ -463,7 +524,7 @@ echo $sum;
         rep_n = 100 if ck.tier == "quick" else 1000
         scfgs = [{"src": SCRIPT, "repeat": rep_n, "autoload": AUTO, "gomaxprocs": g, "expect": "18|1|6|k"} for g in (2, 16)] + \
                 [{"src": SCRIPT2, "repeat": rep_n, "autoload": AUTO, "gomaxprocs": 4, "expect": "0"}]
-        sres, _, _ = run_lines([racebin, "script"], [json.dumps(c) for c in scfgs])
+        sres = vworker.run_worker([racebin, "script"], scfgs, per_case_timeout=400, restart_exit_codes=(3,))
         for c, o in zip(scfgs, sres):
             if "worker_death" in o:
                 death_violation(ck, "script", dict(c, repeat=200), o["worker_death"])
@@ -471,7 +532,7 @@ echo $sum;
             for r in o.get("runs") or []:
                 nscripts += 1
                 if r["outcome"] != "ok" or r["out"].strip() != c["expect"]:
-                    ck.violation("script:spawn-registry", {"mode": "script", "case": dict(c, repeat=200), "impl_out": r,
+                    ck.violation("script:spawn-registry" + (":hang" if r["outcome"] == "hang" else ""), {"mode": "script", "case": dict(c, repeat=200), "impl_out": r,
                                                            "clause": "spawned coroutines resolving/defining concurrently: expected output " + c["expect"] + " (all resolutions succeed, one define() winner, 6 dynamic classes visible / missing classes stay missing)"})
                     break
     ck.cov["script_level_spawn_runs"] = nscripts
@@ -513,6 +574,8 @@ echo $sum;
                 if ci < len(res):
                     cterms[tag].append(coq_conc(cfg, res[ci]))
                     cmap[tag].append((cfg, res[ci]))
+                elif ci == len(res) and hang_violation(ck, "hist-" + tag, cfg, bo):
+                    nrace += 1
                 elif ci == len(res) and (bo.get("exit", 0) != 0 or bo.get("race") or bo.get("fatal")):
                     fns = sorted(set(re.findall(r"runtime\.\(\*VM\)\.(\w+)", " ".join(bo.get("report", [])))))
                     ck.violation("race:%s:%s" % ((bo.get("fatal") or "data race").replace(" ", "-"), "+".join(fns[:4])),
